@@ -28,46 +28,104 @@ VALUE = "serde_json::Value"
 POSITIONS = ["!", "!!", "if", "and", "or", "filter", "all", "some"]
 
 
-def truthy_role(roles):
+def _is_value_to_bool(facts, key):
+    it = facts.items.get(key, {})
+    return it.get("output") == "bool" and it.get("inputs") == ["&serde_json::Value"]
+
+
+def _forwards_to(facts, b):
+    """Key of the one local function `b` purely forwards to — `b` is a bool function of one parameter that calls
+    nothing but that function and every result of which is that function's verdict — or None."""
+    if b is None or b.kind != "fn":
+        return None
+    it = facts.items.get(b.key, {})
+    if it.get("output") != "bool" or len(it.get("inputs", [])) != 1:
+        return None
+    calls = [callee_of(t) for _, t in b.calls()]
+    keys = {c.get("key") if c is not None else None for c in calls}
+    if len(keys) != 1 or None in keys or not calls[0].get("local"):
+        return None
+    g = calls[0]["key"]
+    if g == b.key:
+        return None
+    r = b.trace(0)
+    cands = r[2] if r[0] == "phi" else [r]
+    if all(strip_refs(x)[0] == "call" and strip_refs(x)[1] and strip_refs(x)[1].get("key") == g for x in cands):
+        return g
+    return None
+
+
+def _applied_by_double_not(roles):
+    """The value→bool function(s) of the crate that the function bound to `!!` applies — looked for in the operator's
+    own code and in the private helpers it calls (not inside a value→bool function: what such a function consults
+    is its own business)."""
+    facts = roles.facts
     bb, e = roles.fn_of("!!")
-    cands = []
-    for bi, t in bb.calls():
-        c = callee_of(t)
-        if c and c["local"]:
-            it = roles.facts.items.get(c["key"], {})
-            if it.get("output") == "bool" and it.get("inputs") == ["&serde_json::Value"]:
-                cands.append(c["key"])
+    halt = set(roles.sinks) | set(roles.evaluators)
+    cands, seen, todo = set(), set(), [bb.key]
+    while todo:
+        k = todo.pop()
+        if k in seen or k in halt:
+            continue
+        seen.add(k)
+        for b in roles.unit(k):
+            for bi, t in b.calls():
+                c = callee_of(t)
+                if c and c["local"]:
+                    if _is_value_to_bool(facts, c["key"]):
+                        cands.add(c["key"])
+                    elif facts.body(c["key"]) is not None and facts.body(c["key"]).kind == "fn":
+                        todo.append(c["key"])
     if not cands:
         # the role is "what `!!` applies to its operand", wherever the call sits: in an adapter the closure hands its
         # operand list to (`|items| truthiness(items, false)`), or through a function item bound at the forwarding call
         from . import x_applied
-        for c, _args, _p in x_applied.read(roles.facts, bb).calls():
-            if c.get("local"):
-                it = roles.facts.items.get(c["key"], {})
-                if it.get("output") == "bool" and it.get("inputs") == ["&serde_json::Value"]:
-                    cands.append(c["key"])
-    if len(set(cands)) != 1:
-        raise Inconclusive("truthiness function not identified from the `!!` operator (%d candidates)" % len(set(cands)))
-    return roles.facts.body(cands[0])
+        for c, _args, _p in x_applied.read(facts, bb).calls():
+            if c.get("local") and _is_value_to_bool(facts, c["key"]):
+                cands.add(c["key"])
+    return cands
+
+
+def truthy_family(roles):
+    """(table function body, keys of the pure forwarders of the family).  The family is what the function `!!` applies
+    to its operand, what that purely forwards to (a public wrapper of the function that holds the table), and every
+    pure forwarder of a member; the table function is the member that decides itself."""
+    facts = roles.facts
+    cands = _applied_by_double_not(roles)
+    if len(cands) != 1:
+        raise Inconclusive("truthiness function not identified from the `!!` operator (%d candidates)" % len(cands))
+    t0 = next(iter(cands))
+    fam, cur = {t0}, t0
+    for _ in range(6):
+        g = _forwards_to(facts, facts.body(cur))
+        if g is None or g in fam or not _is_value_to_bool(facts, g):
+            break
+        fam.add(g)
+        cur = g
+    table_key = cur
+    grew = True
+    while grew:
+        grew = False
+        for b in facts.fns():
+            if b.kind == "fn" and b.key not in fam and _forwards_to(facts, b) in fam:
+                fam.add(b.key)
+                grew = True
+    return facts.body(table_key), fam - {table_key}
+
+
+def truthy_role(roles):
+    """The function that holds the truthiness table: the bool function the operator `!!` applies to its operand, or —
+    when that is a mere wrapper — the function it forwards to."""
+    return truthy_family(roles)[0]
 
 
 def forwarders(roles, truthy):
-    """Local bool functions all of whose results are truthy(<payload of the parameter>) and that call nothing else local."""
-    out = set()
-    for b in roles.facts.fns():
-        if b.kind != "fn" or b.key == truthy.key:
-            continue
-        it = roles.facts.items.get(b.key, {})
-        if it.get("output") != "bool" or len(it.get("inputs", [])) != 1:
-            continue
-        calls = [callee_of(t) for _, t in b.calls()]
-        if not calls or any(c is None or c.get("key") != truthy.key for c in calls):
-            continue
-        r = b.trace(0)
-        cands = r[2] if r[0] == "phi" else [r]
-        if all(strip_refs(x)[0] == "call" and strip_refs(x)[1].get("key") == truthy.key for x in cands):
-            out.add(b.key)
-    return out
+    """Local bool functions all of whose results are the verdict of the truthiness function (or of another forwarder)
+    on (the payload of) their parameter and that call nothing else."""
+    tb, fw = truthy_family(roles)
+    if tb.key != truthy.key:
+        return set()
+    return set(fw)
 
 
 def run(ctx):
@@ -203,38 +261,7 @@ def run(ctx):
         ctx.check(ab.key == ib.key, "K1.alias", "?: is bound to the same function as if (%s)" % cfg, "?: and if are bound to different functions", where=ib.where(), fn=ib.key)
 
         # ---------------- K2
-        def decided(op):
-            b, e = roles.fn_of(op)
-            r = strip_refs(b.trace(0))
-            if r[0] == "call" and r[1] and r[1].get("local"):
-                # the result is computed by an adapter that receives the operand list (and a constant flag): read what the
-                # entry returns on its paths with the adapter expanded and its parameters bound (rules/x_applied.py)
-                from . import x_applied, pathsum
-                ap = x_applied.read(facts, b)
-                rs = {pathsum.canon(strip_refs(x)): strip_refs(x) for _p, x in ap.paths if x is not None}
-                if ap.readable and len(rs) == 1:
-                    r = list(rs.values())[0]
-            if not (r[0] == "agg" and r[1].get("variant") == "Ok"):
-                return None, b
-            v = strip_refs(r[2][0])
-            if not (v[0] == "agg" and v[1].get("adt") == VALUE and v[1].get("variant") == "Bool"):
-                return None, b
-            return strip_refs(v[2][0]), b
-
-        bb_e, bb_b = decided("!!")
-        b_e, b_b = decided("!")
-        ok = bb_e is not None and b_e is not None
-        if ok:
-            ok = bb_e[0] == "call" and bb_e[1].get("key") == truthy.key
-            ok = ok and b_e[0] == "unop" and b_e[1] == "Not"
-            inner = strip_refs(b_e[2]) if ok else None
-            ok = ok and inner[0] == "call" and inner[1].get("key") == truthy.key
-            if ok:
-                a1, a2 = norm_operand(bb_e[2][0]), norm_operand(inner[2][0])
-                ok = a1 == a2 and a1 is not None and a1[1] == 0
-        ctx.check(bool(ok), "K2.negation", "`!` = Not(`!!`) on operand 0 (%s)" % cfg,
-                  "`!!` returns %s and `!` returns %s — not truthy(operand 0) and its negation" % (show_expr(bb_e) if bb_e else "?", show_expr(b_e) if b_e else "?"), where=b_b.where(), fn=b_b.key, nontrivial=True,
-                  sample={"!!": show_expr(bb_e) if bb_e else None, "!": show_expr(b_e) if b_e else None})
+        negation(ctx, facts, roles, ok_keys, cfg)
 
         # ---------------- K3
         table(ctx, facts, roles, truthy, cfg)
@@ -258,6 +285,86 @@ def rv_mentions_local(rv, l):
     return False
 
 
+def negation(ctx, facts, roles, ok_keys, cfg):
+    """K2 — `!!` yields Bool(t) and `!` yields Bool(not t), t = the shared truthiness function applied to operand 0.
+    Read off the decision cases of the two bound functions *through* their private helpers (rules/x_ipath.py: a helper
+    parameterised by a polarity constant is followed under the constant each operator passes), the truthiness family
+    itself staying opaque: every case must return Ok(Bool(Not^n(truthy(operand 0)))) with n even for `!!`, odd for `!`."""
+    from . import x_ipath
+    from . import operands as OD
+    halt = set(roles.sinks) | set(roles.evaluators) | set(ok_keys)
+    got = {}
+    undecided = violated = False
+    for op, want_odd in (("!!", False), ("!", True)):
+        b, e = roles.fn_of(op)
+        key = "`%s` (%s)" % (op, cfg)
+        args_param = None
+        for l in range(1, b.arg_count + 1):
+            if "std::vec::Vec<&" in b.local_ty(l):
+                args_param = l
+        try:
+            cases = x_ipath.decision_cases(facts, b, lambda c: c.get("key") not in halt)
+        except Exception as ex_:
+            cases = None
+        if not cases:
+            ctx.unread("K2.negation", key, "the function bound to `%s` has loops or too many paths to read its result" % op, where=b.where(), fn=b.key)
+            undecided = True
+            continue
+        bad, unread, shown = [], [], []
+        for conds, val, pth in cases:
+            v = strip_refs(val)
+            txt = show_expr(v)[:120]
+            if not (v[0] == "agg" and v[1].get("variant") in ("Ok", "Err")):
+                unread.append(txt)
+                continue
+            if v[1]["variant"] == "Err" or not v[2]:
+                bad.append("can fail (%s)" % txt)
+                continue
+            x = strip_refs(v[2][0])
+            if not (x[0] == "agg" and x[1].get("adt") == VALUE):
+                (unread if x[0] != "const" else bad).append(txt)
+                continue
+            if x[1].get("variant") != "Bool" or not x[2]:
+                bad.append("returns a JSON %s (%s)" % (x[1].get("variant"), txt))
+                continue
+            t, odd = strip_refs(x[2][0]), False
+            while t[0] == "unop" and t[1] == "Not":
+                t, odd = strip_refs(t[2]), not odd
+            fam = lambda y: y[0] == "call" and y[1] is not None and y[1].get("key") in ok_keys
+            if not expr_mentions(t, fam):
+                bad.append("returns %s, which is not a verdict of the shared truthiness function" % txt)
+                continue
+            if not (fam(t) and t[2]):
+                unread.append(txt)
+                continue
+            idx = None
+            if args_param is not None:
+                idx = OD.absolute_index(OD.describe(b, t[2][0], args_param))
+            if idx is None:
+                no = norm_operand(t[2][0])
+                idx = no[1] if no is not None else None
+            if idx is None:
+                unread.append("operand of " + txt)
+                continue
+            if idx != 0:
+                bad.append("tests operand %s, not operand 0 (%s)" % (idx, txt))
+                continue
+            if odd != want_odd:
+                bad.append("returns %s: %s of the operand's truthiness" % (txt, "the negation" if odd else "not the negation"))
+                continue
+            if txt not in shown:
+                shown.append(txt)
+        got[op] = shown
+        if bad:
+            violated = True
+            ctx.fail("K2.negation", "`!` = Not(`!!`) on operand 0 (%s)" % cfg, "`%s` %s — `!!` is truthy(operand 0) and `!` its negation" % (op, "; ".join(sorted(set(bad))[:3])), where=b.where(), fn=b.key)
+        elif unread:
+            undecided = True
+            ctx.unread("K2.negation", key, "result of the function bound to `%s` not read as Ok(Bool(± truthy(operand 0))): %s" % (op, unread[:2]), where=b.where(), fn=b.key)
+    if not violated and not undecided and all(got.get(op) for op in ("!!", "!")):
+        ctx.ok("K2.negation", "`!` = Not(`!!`) on operand 0 (%s)" % cfg, nontrivial=True, sample={"!!": got["!!"], "!": got["!"]})
+
+
 def norm_operand(e):
     e = strip_refs(e)
     if e[0] == "call" and e[1] and e[1]["path"] == "<std::vec::Vec<T, A> as std::ops::Index<I>>::index":
@@ -270,7 +377,7 @@ def table(ctx, facts, roles, truthy, cfg):
     """K3 — the table itself, read off the decision cases of the truthiness function per kind of its argument
     (rules/pathsum.py, rules/optnorm.py): match arms, if/else, `!v.is_empty()`, `map_or(false, |n| n != 0.0)` are all
     the same rows here."""
-    from . import optnorm, pathsum
+    from . import optnorm, pathsum, x_ipath
     unit = Unit(roles, truthy.key)
     rec = [s for s in unit.calls(lambda c: c.get("key") == truthy.key)]
     ctx.check(not rec, "K3.no-recursion", "truthiness does not recurse into elements (%s)" % cfg, "the truthiness function calls itself", where=truthy.where(), fn=truthy.key)
@@ -331,7 +438,15 @@ def table(ctx, facts, roles, truthy, cfg):
         return None
     for v in facts.variants(VALUE):
         key = "%s (%s)" % (v, cfg)
-        cases = optnorm.decision_cases(facts, truthy, known=lambda e, adt, _v=v: _v if (adt == VALUE and strip_refs(e) == ("arg", 1)) else None)
+        # read through the private helpers the table function hands a payload to (`impl Truthiness for str`, `is_zero(n)`):
+        # their guards become atoms on the table function's own expressions (rules/x_ipath.py)
+        known_ = lambda e, adt, _v=v: _v if (adt == VALUE and strip_refs(e) == ("arg", 1)) else None
+        try:
+            cases = x_ipath.decision_cases(facts, truthy, lambda c: c.get("key") != truthy.key, known=known_)
+        except Exception:
+            cases = None
+        if cases is None:
+            cases = optnorm.decision_cases(facts, truthy, known=known_)
         if cases is None:
             ctx.unread("K3.table", key, "the truthiness function has loops or too many paths to summarise", where=where, fn=truthy.key)
             continue
